@@ -431,6 +431,36 @@ fn load(disk: &Disk) -> Result<HnswIndex, String> {
         .map_err(|e| format!("{e:?}"))
 }
 
+fn live_ids_of(model: &BTreeMap<u64, Vec<f32>>) -> Vec<u64> {
+    model.keys().copied().collect()
+}
+
+/// Sizes of the layer-0 reachability sets {|reach0(s)| : s a stored node}, from the adjacency lists
+/// exposed by `get_node_with` (ids without a node are skipped, as `search_layer` does).
+fn layer0_reach_sizes(idx: &HnswIndex, ids: &[u64]) -> BTreeSet<usize> {
+    let mut adj: BTreeMap<u64, Vec<u64>> = BTreeMap::new();
+    for id in ids {
+        if let Ok(nb) = idx.get_node_with(*id, |n| n.neighbors.first().map(|l| l.iter().map(|(x, _)| *x).collect::<Vec<u64>>()).unwrap_or_default()) {
+            adj.insert(*id, nb);
+        }
+    }
+    let mut out = BTreeSet::new();
+    for s in adj.keys() {
+        let mut seen: BTreeSet<u64> = BTreeSet::new();
+        seen.insert(*s);
+        let mut stack = vec![*s];
+        while let Some(x) = stack.pop() {
+            for y in &adj[&x] {
+                if adj.contains_key(y) && seen.insert(*y) {
+                    stack.push(*y);
+                }
+            }
+        }
+        out.insert(seen.len());
+    }
+    out
+}
+
 fn stored_vector(idx: &HnswIndex, id: u64) -> Option<Vec<f32>> {
     idx.get_node_with(id, |n| n.vector.iter().map(|b| b.to_f32()).collect()).ok()
 }
@@ -538,8 +568,18 @@ fn audit(
     if rng.chance(1, 8) {
         ks.push(0);
     }
+    // a k strictly between ef_search and n: the documented beam width is max(ef_search, top_k)
+    if n > cfg.ef_search + 1 {
+        ks.push(cfg.ef_search + 1 + rng.usize(n - cfg.ef_search - 1));
+    }
     ks.sort_unstable();
     ks.dedup();
+    // Result-count law (documented search pipeline: "layer-0 beam search with width
+    // max(ef_search, top_k)", then truncate): a beam of width w >= k that starts at node s collects
+    // min(w, |reach0(s)|) nodes, so |result| = min(k, |reach0(s)|) for the (unknown) start node s.
+    // The admissible set is computed from the layer-0 adjacency read through the public node
+    // accessor; ids absent from the node map are skipped exactly as the search skips them.
+    let reach_sizes = layer0_reach_sizes(idx, &live_ids_of(model));
     for (q, label, self_id) in &queries {
         for &k in &ks {
             if light && k == 2 {
@@ -560,6 +600,19 @@ fn audit(
                 return false;
             }
             let Ok(r) = &res else { continue };
+            if k <= HnswConfig::MAX_EF_SEARCH && !reach_sizes.is_empty() {
+                st.count("oracle_result_count_law");
+                if !reach_sizes.iter().any(|rs| r.len() == k.min(*rs)) {
+                    st.violation("C12/search/result_count_below_beam_width", json!({"k": k, "returned": r.len(), "ef_search": cfg.ef_search,
+                        "live": n, "layer0_reach_sizes_by_start_node": reach_sizes.iter().collect::<Vec<_>>(), "query": label,
+                        "law": "|result| = min(k, |nodes reachable on layer 0 from the beam's start node|) because the documented beam width is max(ef_search, top_k)",
+                        "context": ctx()}));
+                    return false;
+                }
+                if k > cfg.ef_search && r.len() > cfg.ef_search {
+                    st.count("searches_returning_more_than_ef_search");
+                }
+            }
             // not promised by the property, only measured: with n <= ef the layer-0 beam returns
             // everything reachable from its start node
             if let Some(sid) = self_id {
@@ -1803,6 +1856,8 @@ fn main() {
     }
     run.floor("search_simple", t.pick(50_000, 1_000_000));
     run.floor("search_heuristic", t.pick(50_000, 1_000_000));
+    run.floor("oracle_result_count_law", 10000);
+    run.floor("searches_returning_more_than_ef_search", 1000);
     run.floor("oracle_distance_value", 200_000);
     run.floor("oracle_order_multi", 50_000);
     run.floor("search_q_removed_id_probe", 5_000);
